@@ -42,7 +42,7 @@ def subU64 (p : Profile) (a b : Nat) : Out Nat :=
   if b ≤ a then .ok (a - b)
   else match p with
     | .debug => .panic
-    | .release => .ok (a + U64 - b)
+    | .release => .ok ((a + U64 - b % U64) % U64)
 
 /-- `a += b` on a `usize` (64-bit target). -/
 def addUsize (p : Profile) (a b : Nat) : Out Nat :=
@@ -371,7 +371,11 @@ def ecmpCount (fl : Flags) (t2 : Bool) : List Entry → Nat
   | [] => 0
   | b :: l => ((b :: l).takeWhile fun e => ecmpKey fl t2 e == ecmpKey fl t2 b).length
 
-/-! ## `Table::insert` -/
+/-! ## `Table::insert`
+
+Written as a small shell over pure pieces (`insertPlan`, `insertStats`, `insertCommit`) so that every
+proof can talk about the pieces; the shell only sequences the two fallible computations
+(`attr_as_path_length`, the `u64` statistics). -/
 
 def sameAddr (addr : Nat) (e : Entry) : Bool := e.src.addr == addr
 
@@ -386,19 +390,26 @@ def statsGet (t : Table) (k : Nat × Fam) : Nat × Nat :=
   | some v => v
   | none => (0, 0)
 
-def Table.insert (p : Profile) (t : Table) (src : Src) (fam : Fam) (net : Net) (rpid : Nat)
-    (nh : Option Nat) (attr : Attrs) (filtered nhInv : Bool) : Out (Table × Res) := do
-  let lim := src.lim
+/-- Everything `insert` decides before it builds the new entry. -/
+structure InsPlan where
+  /-- the rib with the destination looked up or created (`entry(net).or_insert_with`) -/
+  rib : Rib
+  dst : Dest
+  oldBest : Option (Nat × Nat × Option Nat)
+  replaced : Option Entry
+  /-- `dst.entry` after `remove(replaced_idx)` -/
+  entries : List Entry
+  isNew : Bool
+  deriving Repr
+
+def insertPlan (t : Table) (src : Src) (fam : Fam) (net : Net) (rpid : Nat) : InsPlan :=
   let rib := t.rib fam
-  let deferring := rib.deferring
-  -- destinations.entry(net).or_insert_with(|| Destination::with_id(alloc()))
-  let (rib, dst) :=
+  let (rib, dst) : Rib × Dest :=
     match alookup net rib.dests with
     | some d => (rib, d)
     | none =>
         let id := allocId rib.used
         ({ rib with used := id :: rib.used }, { entries := [], next := 1, id := id })
-  let oldBest := bestKey dst.entries
   let ridx := replacedIdx src.addr rpid dst.entries 0 none
   let peerHasPath := dst.entries.any fun e => sameAddr src.addr e && !(e.rpid == rpid)
   let replaced : Option Entry := match ridx with
@@ -407,163 +418,179 @@ def Table.insert (p : Profile) (t : Table) (src : Src) (fam : Fam) (net : Net) (
   let entries := match ridx with
     | some i => dst.entries.eraseIdx i
     | none => dst.entries
-  let isNew := replaced.isNone && !peerHasPath
+  { rib, dst, oldBest := bestKey dst.entries, replaced, entries, isNew := replaced.isNone && !peerHasPath }
+
+/-- `PrefixLimitExceeded`: nothing was inserted; a destination created just for this path is
+    released again. -/
+def insertLimit (t : Table) (fam : Fam) (net : Net) (pl : InsPlan) : Table :=
+  let rib := if pl.entries.isEmpty then
+      { pl.rib with dests := aerase net pl.rib.dests, used := pl.rib.used.erase pl.dst.id }
+    else { pl.rib with dests := aset net { pl.dst with entries := pl.entries } pl.rib.dests }
+  t.setRib fam rib
+
+/-- the `route_stats` update of `insert` -/
+def insertStats (p : Profile) (st : Nat × Nat) (replaced : Option Entry) (isNew filtered : Bool) : Out (Nat × Nat) :=
+  match replaced with
+  | some old =>
+      if old.filtered && !filtered then .ok (st.1, st.2 + 1)
+      else if !old.filtered && filtered then
+        match subU64 p st.2 1 with
+        | .ok a => .ok (st.1, a)
+        | .panic => .panic
+      else .ok st
+  | none =>
+      if isNew then .ok (st.1 + 1, if filtered then st.2 else st.2 + 1)
+      else .ok (st.1, if filtered then st.2 else st.2 + 1)
+
+def insertCommit (t : Table) (src : Src) (fam : Fam) (net : Net) (rpid : Nat) (nh : Option Nat) (attr : Attrs)
+    (filtered nhInv : Bool) (pl : InsPlan) (aslen : Nat) (st : Nat × Nat) : Table × Res :=
   let ck := (src.id, fam)
-  -- prefix limit
-  let limitHit := isNew && (match lim with | some max => t.ctr ck ≥ max | none => false)
-  if limitHit then
-    -- a destination created just for this path is released again
-    let rib := if entries.isEmpty then
-        { rib with dests := aerase net rib.dests, used := rib.used.erase dst.id }
-      else { rib with dests := aset net { dst with entries := entries } rib.dests }
-    return (t.setRib fam rib, .limit)
-  let ctrs := if isNew && lim.isSome then aset ck (atomicInc (t.ctr ck)) t.ctrs else t.ctrs
-  let (lpid, dst) := match replaced with
-    | some old => (old.lpid, { dst with entries := entries })
-    | none => allocPathId { dst with entries := entries }
-  let aslen ← attr.asPathLen p
+  let ctrs := if pl.isNew && src.lim.isSome then aset ck (atomicInc (t.ctr ck)) t.ctrs else t.ctrs
+  let (lpid, dst) : Nat × Dest := match pl.replaced with
+    | some old => (old.lpid, { pl.dst with entries := pl.entries })
+    | none => allocPathId { pl.dst with entries := pl.entries }
   let entry : Entry := { lpid, src, nh, attr, rpid, filtered, nhInv, aslen }
-  -- route_stats
-  let sk := (src.addr, fam)
-  let (recv, acc) := statsGet t sk
-  let (recv, acc) ← (match replaced with
-    | some old =>
-        if old.filtered && !filtered then pure (recv, acc + 1)
-        else if !old.filtered && filtered then do
-          let a ← subU64 p acc 1
-          pure (recv, a)
-        else pure (recv, acc)
-    | none =>
-        if isNew then pure (recv + 1, if filtered then acc else acc + 1)
-        else pure (recv, if filtered then acc else acc + 1) : Out (Nat × Nat))
-  let stats := aset sk (recv, acc) t.stats
   let entries := insertSorted (cmpFor t.flags net.t2) entry dst.entries
   let dst := { dst with entries := entries }
-  let rib := { rib with dests := aset net dst rib.dests }
-  let t' := { (t.setRib fam rib) with stats := stats, ctrs := ctrs }
-  if deferring then return (t', .noChange)
-  let newBest := bestKey entries
-  let bestChanged := oldBest != newBest
-  let anyChanged := !filtered || (match replaced with | some r => !r.filtered | none => false)
-  if !bestChanged && !anyChanged then return (t', .noChange)
-  return (t', .changed { fam, net, destId := dst.id, best := bestChanged, any := anyChanged,
-                         replaced := replaced.map (·.lpid), paths := entries.filter Entry.eligible })
+  let rib := { pl.rib with dests := aset net dst pl.rib.dests }
+  let t' := { (t.setRib fam rib) with stats := aset (src.addr, fam) st t.stats, ctrs := ctrs }
+  let bestChanged := pl.oldBest != bestKey entries
+  let anyChanged := !filtered || (match pl.replaced with | some r => !r.filtered | none => false)
+  if pl.rib.deferring || (!bestChanged && !anyChanged) then (t', .noChange)
+  else (t', .changed { fam, net, destId := dst.id, best := bestChanged, any := anyChanged,
+                       replaced := pl.replaced.map (·.lpid), paths := entries.filter Entry.eligible })
+
+def Table.insert (p : Profile) (t : Table) (src : Src) (fam : Fam) (net : Net) (rpid : Nat)
+    (nh : Option Nat) (attr : Attrs) (filtered nhInv : Bool) : Out (Table × Res) :=
+  let pl := insertPlan t src fam net rpid
+  let limitHit := pl.isNew && (match src.lim with | some max => t.ctr (src.id, fam) ≥ max | none => false)
+  if limitHit then .ok (insertLimit t fam net pl, .limit)
+  else
+    match attr.asPathLen p with
+    | .panic => .panic
+    | .ok aslen =>
+        match insertStats p (statsGet t (src.addr, fam)) pl.replaced pl.isNew filtered with
+        | .panic => .panic
+        | .ok st => .ok (insertCommit t src fam net rpid nh attr filtered nhInv pl aslen st)
 
 /-! ## `Table::remove` -/
 
-def Table.remove (p : Profile) (t : Table) (src : Src) (fam : Fam) (net : Net) (rpid : Nat) :
-    Out (Table × Res) := do
-  let withCtr := src.lim.isSome
+/-- the `route_stats` update of `remove` (and of one destination of a purge) -/
+def removeStats (p : Profile) (st : Nat × Nat) (peerGone : Nat) (removedAccepted : Nat) : Out (Nat × Nat) :=
+  match subU64 p st.1 peerGone with
+  | .panic => .panic
+  | .ok r =>
+      match subU64 p st.2 removedAccepted with
+      | .panic => .panic
+      | .ok a => .ok (r, a)
+
+def removeCommit (t : Table) (src : Src) (fam : Fam) (net : Net) (dst : Dest) (removed : Entry)
+    (entries : List Entry) (st : Nat × Nat) : Table × Res :=
   let rib := t.rib fam
-  match alookup net rib.dests with
-  | none => return (t, .removed none)
+  let peerStill := entries.any (sameAddr src.addr)
+  let ck := (src.id, fam)
+  let ctrs := if !peerStill && src.lim.isSome then aset ck (atomicDec (t.ctr ck)) t.ctrs else t.ctrs
+  let stats := aset (src.addr, fam) st t.stats
+  let wasUnfiltered := !removed.filtered
+  if entries.isEmpty then
+    let rib' := { rib with dests := aerase net rib.dests, used := rib.used.erase dst.id }
+    let t' := { (t.setRib fam rib') with stats := stats, ctrs := ctrs }
+    if rib.deferring || !wasUnfiltered then (t', .removed none)
+    else (t', .removed (some { fam, net, destId := dst.id, best := true, any := true, replaced := none, paths := [] }))
+  else
+    let rib' := { rib with dests := aset net { dst with entries := entries } rib.dests }
+    let t' := { (t.setRib fam rib') with stats := stats, ctrs := ctrs }
+    let bestChanged := bestKey dst.entries != bestKey entries
+    if rib.deferring || (!bestChanged && !wasUnfiltered) then (t', .removed none)
+    else (t', .removed (some { fam, net, destId := dst.id, best := bestChanged, any := wasUnfiltered,
+                               replaced := none, paths := entries.filter Entry.eligible }))
+
+def Table.remove (p : Profile) (t : Table) (src : Src) (fam : Fam) (net : Net) (rpid : Nat) :
+    Out (Table × Res) :=
+  match alookup net (t.rib fam).dests with
+  | none => .ok (t, .removed none)
   | some dst =>
     match dst.entries.findIdx? (fun e => sameAddr src.addr e && e.rpid == rpid) with
-    | none => return (t, .removed none)
+    | none => .ok (t, .removed none)
     | some i =>
       match dst.entries[i]? with
       | none => .panic
       | some removed =>
-        let oldBest := bestKey dst.entries
-        let wasUnfiltered := !removed.filtered
         let entries := dst.entries.eraseIdx i
-        let peerStill := entries.any (sameAddr src.addr)
-        let sk := (src.addr, fam)
         -- route_stats.get_mut(addr).unwrap().get_mut(family).unwrap()
-        match alookup sk t.stats with
+        match alookup (src.addr, fam) t.stats with
         | none => .panic
-        | some (recv, acc) =>
-          let recv ← if !peerStill then subU64 p recv 1 else pure recv
-          let ck := (src.id, fam)
-          let ctrs := if !peerStill && withCtr then aset ck (atomicDec (t.ctr ck)) t.ctrs else t.ctrs
-          let acc ← if wasUnfiltered then subU64 p acc 1 else pure acc
-          let stats := aset sk (recv, acc) t.stats
-          if entries.isEmpty then
-            let rib := { rib with dests := aerase net rib.dests, used := rib.used.erase dst.id }
-            let t' := { (t.setRib fam rib) with stats := stats, ctrs := ctrs }
-            if rib.deferring then return (t', .removed none)
-            return (t', .removed (if wasUnfiltered then
-              some { fam, net, destId := dst.id, best := true, any := true, replaced := none, paths := [] }
-              else none))
-          else
-            let rib := { rib with dests := aset net { dst with entries := entries } rib.dests }
-            let t' := { (t.setRib fam rib) with stats := stats, ctrs := ctrs }
-            if rib.deferring then return (t', .removed none)
-            let bestChanged := oldBest != bestKey entries
-            let anyChanged := wasUnfiltered
-            if !bestChanged && !anyChanged then return (t', .removed none)
-            return (t', .removed (some { fam, net, destId := dst.id, best := bestChanged, any := anyChanged,
-                                         replaced := none, paths := entries.filter Entry.eligible }))
+        | some st =>
+          match removeStats p st (if entries.any (sameAddr src.addr) then 0 else 1)
+                  (if removed.filtered then 0 else 1) with
+          | .panic => .panic
+          | .ok st' => .ok (removeCommit t src fam net dst removed entries st')
 
-/-! ## Purges: `drop`, `drop_stale`, `drop_llgr_stale`, `drop_no_llgr` -/
+/-! ## Purges: `drop`, `drop_stale`, `drop_llgr_stale`, `drop_no_llgr`
 
-/-- Mutable context threaded through `destinations.retain(..)`. -/
-structure PurgeAcc where
-  dests : List (Net × Dest) := []      -- kept destinations (reversed)
-  freed : List Nat := []
-  changes : List Change := []          -- reversed
-  ctr : Nat                            -- the limit counter passed by the caller (if any)
-  recv : Nat
-  acc : Nat
+One closure call of `destinations.retain(..)` is the pure `purgeOne`; the counters it touches only
+ever go down, so the sequence of per-destination decrements is one subtraction of the totals
+(same overflow-check outcome in debug, same wrapped value in release). -/
+
+structure PurgeOut where
+  /-- the destination if it is retained -/
+  keep : Option (Net × Dest)
+  freed : Option Nat
+  change : Option Change
+  /-- the destination was touched and the peer has no path left in it -/
+  peerGone : Bool
+  /-- removed paths that had passed import policy -/
+  removedAccepted : Nat
   deriving Repr
 
-/-- One closure call of `retain` for the purge functions.  `pred` selects the entries to remove
-    (it always implies "same peer address"); `useCtr`: a counter was passed; `useStats`: the
-    statistics of (addr, family) exist and are maintained. -/
-def purgeDest (p : Profile) (fam : Fam) (addr : Nat) (pred : Entry → Bool) (useCtr useStats : Bool)
-    (nd : Net × Dest) (a : PurgeAcc) : Out PurgeAcc := do
+def purgeOne (fam : Fam) (addr : Nat) (pred : Entry → Bool) (nd : Net × Dest) : PurgeOut :=
   let (net, dst) := nd
   if !dst.entries.any pred then
-    return { a with dests := nd :: a.dests }
-  let oldBest := bestLpid dst.entries
-  let removedAnyUnf := dst.entries.any fun e => pred e && e.eligible
-  let removedAccepted := (dst.entries.filter fun e => pred e && !e.filtered).length
-  let entries := dst.entries.filter fun e => !pred e
-  let peerStill := entries.any (sameAddr addr)
-  let ctr := if !peerStill && useCtr then atomicDec a.ctr else a.ctr
-  let recv ← if useStats && !peerStill then subU64 p a.recv 1 else pure a.recv
-  let acc ← if useStats then subU64 p a.acc removedAccepted else pure a.acc
-  let a := { a with ctr := ctr, recv := recv, acc := acc }
-  if !removedAnyUnf then
-    if entries.isEmpty then return { a with freed := dst.id :: a.freed }
-    else return { a with dests := (net, { dst with entries := entries }) :: a.dests }
-  if entries.isEmpty then
-    return { a with freed := dst.id :: a.freed,
-                    changes := { fam, net, destId := dst.id, best := true, any := true,
-                                 replaced := none, paths := [] } :: a.changes }
-  return { a with dests := (net, { dst with entries := entries }) :: a.dests,
-                  changes := { fam, net, destId := dst.id, best := oldBest != bestLpid entries, any := true,
-                               replaced := none, paths := entries.filter Entry.eligible } :: a.changes }
+    { keep := some nd, freed := none, change := none, peerGone := false, removedAccepted := 0 }
+  else
+    let removedAnyUnf := dst.entries.any fun e => pred e && e.eligible
+    let removedAccepted := (dst.entries.filter fun e => pred e && !e.filtered).length
+    let entries := dst.entries.filter fun e => !pred e
+    let peerGone := !entries.any (sameAddr addr)
+    if entries.isEmpty then
+      { keep := none, freed := some dst.id, peerGone, removedAccepted,
+        change := if removedAnyUnf then
+            some { fam, net, destId := dst.id, best := true, any := true, replaced := none, paths := [] }
+          else none }
+    else
+      { keep := some (net, { dst with entries := entries }), freed := none, peerGone, removedAccepted,
+        change := if removedAnyUnf then
+            some { fam, net, destId := dst.id, best := bestLpid dst.entries != bestLpid entries, any := true,
+                   replaced := none, paths := entries.filter Entry.eligible }
+          else none }
 
-def purgeLoop (p : Profile) (fam : Fam) (addr : Nat) (pred : Entry → Bool) (useCtr useStats : Bool) :
-    List (Net × Dest) → PurgeAcc → Out PurgeAcc
-  | [], a => .ok a
-  | nd :: l, a =>
-      match purgeDest p fam addr pred useCtr useStats nd a with
-      | .panic => .panic
-      | .ok a' => purgeLoop p fam addr pred useCtr useStats l a'
+/-- `k` times `fetch_sub(1)` -/
+def atomicDecN (k v : Nat) : Nat := (v + U64 - k % U64) % U64
 
 /-- Common body of the four purge functions.  `ctr`: source id whose limit counter is passed;
     `dropStats`: `drop` removes the statistics of (addr, family) first and does not maintain them. -/
 def Table.purge (p : Profile) (t : Table) (addr : Nat) (fam : Fam) (pred : Entry → Bool)
-    (ctr : Option Nat) (dropStats : Bool) : Out (Table × Res) := do
+    (ctr : Option Nat) (dropStats : Bool) : Out (Table × Res) :=
   let sk := (addr, fam)
-  let stats0 := if dropStats then aerase sk t.stats else t.stats
-  let (useStats, recv, acc) := match alookup sk stats0 with
-    | some (r, a) => (true, r, a)
-    | none => (false, 0, 0)
   let rib := t.rib fam
-  let c0 := match ctr with
-    | some s => t.ctr (s, fam)
-    | none => 0
-  let a ← purgeLoop p fam addr pred ctr.isSome useStats rib.dests { ctr := c0, recv := recv, acc := acc }
-  let rib' := { rib with dests := a.dests.reverse, used := rib.used.filter fun i => !a.freed.contains i }
-  let stats := if useStats then aset sk (a.recv, a.acc) stats0 else stats0
+  let outs := rib.dests.map (purgeOne fam addr pred)
+  let gone := (outs.filter (·.peerGone)).length
+  let racc := (outs.map (·.removedAccepted)).sum
+  let freed := outs.filterMap (·.freed)
+  let rib' := { rib with dests := outs.filterMap (·.keep), used := rib.used.filter fun i => !freed.contains i }
   let ctrs := match ctr with
-    | some s => aset (s, fam) a.ctr t.ctrs
+    | some s => aset (s, fam) (atomicDecN gone (t.ctr (s, fam))) t.ctrs
     | none => t.ctrs
-  let t' := { (t.setRib fam rib') with stats := stats, ctrs := ctrs }
-  return (t', .changes (if rib.deferring then [] else a.changes.reverse))
+  let res : Res := .changes (if rib.deferring then [] else outs.filterMap (·.change))
+  if dropStats then
+    .ok ({ (t.setRib fam rib') with stats := aerase sk t.stats, ctrs := ctrs }, res)
+  else
+    match alookup sk t.stats with
+    | none => .ok ({ (t.setRib fam rib') with ctrs := ctrs }, res)
+    | some st =>
+        match removeStats p st gone racc with
+        | .panic => .panic
+        | .ok st' => .ok ({ (t.setRib fam rib') with stats := aset sk st' t.stats, ctrs := ctrs }, res)
 
 def Table.drop (p : Profile) (t : Table) (addr : Nat) (fam : Fam) : Out (Table × Res) :=
   t.purge p addr fam (sameAddr addr) none true
@@ -589,53 +616,53 @@ def restaleDest (fam : Fam) (addr : Nat) (llgrMark : Bool) (fl : Flags) (nd : Ne
   let (net, dst) := nd
   if !dst.entries.any (sameAddr addr) then (fl, nd, none)
   else
-    let oldBest := bestLpid dst.entries
     let anyUnf := dst.entries.any fun e => sameAddr addr e && !e.filtered
     let ids := (dst.entries.filter (sameAddr addr)).map (·.src.id)
     let fl' : Flags := if llgrMark then { fl with llgr := addIds ids fl.llgr } else { fl with stale := addIds ids fl.stale }
     let entries := sortBy (cmpFor fl' net.t2) dst.entries
-    let bestChanged := oldBest != bestLpid entries
-    let dst' := { dst with entries := entries }
-    if bestChanged || anyUnf then
-      (fl', (net, dst'), some { fam, net, destId := dst.id, best := bestChanged, any := anyUnf,
-                                replaced := none, paths := entries.filter Entry.eligible })
-    else (fl', (net, dst'), none)
+    let bestChanged := bestLpid dst.entries != bestLpid entries
+    (fl', (net, { dst with entries := entries }),
+     if bestChanged || anyUnf then
+       some { fam, net, destId := dst.id, best := bestChanged, any := anyUnf, replaced := none,
+              paths := entries.filter Entry.eligible }
+     else none)
 
+/-- the destinations are visited one after the other; flags set while visiting one destination are
+    seen by the sorts of the following ones -/
 def restaleLoop (fam : Fam) (addr : Nat) (llgrMark : Bool) :
-    List (Net × Dest) → Flags → List (Net × Dest) → List Change → Flags × List (Net × Dest) × List Change
-  | [], fl, ds, cs => (fl, ds.reverse, cs.reverse)
-  | nd :: l, fl, ds, cs =>
-      let (fl', nd', c) := restaleDest fam addr llgrMark fl nd
-      restaleLoop fam addr llgrMark l fl' (nd' :: ds) (match c with | some c => c :: cs | none => cs)
+    List (Net × Dest) → Flags → Flags × List (Net × Dest) × List Change
+  | [], fl => (fl, [], [])
+  | nd :: l, fl =>
+      let (fl1, nd', c) := restaleDest fam addr llgrMark fl nd
+      let (fl2, ds, cs) := restaleLoop fam addr llgrMark l fl1
+      (fl2, nd' :: ds, match c with | some c => c :: cs | none => cs)
 
 def Table.restaleGen (t : Table) (addr : Nat) (fam : Fam) (llgrMark : Bool) : Table × Res :=
   let rib := t.rib fam
-  let (fl, ds, cs) := restaleLoop fam addr llgrMark rib.dests t.flags [] []
-  let t' := { (t.setRib fam { rib with dests := ds }) with stale := fl.stale, llgr := fl.llgr }
-  (t', .changes (if rib.deferring then [] else cs))
+  let (fl, ds, cs) := restaleLoop fam addr llgrMark rib.dests t.flags
+  ({ (t.setRib fam { rib with dests := ds }) with stale := fl.stale, llgr := fl.llgr },
+   .changes (if rib.deferring then [] else cs))
 
 /-! ## `update_nexthop_validity` -/
 
 def nhvDest (fam : Fam) (nh : Nat) (reachable : Bool) (nd : Net × Dest) : (Net × Dest) × Option Change :=
   let (net, dst) := nd
-  let oldBest := bestKey dst.entries
   let nowInvalid := !reachable
-  let anyChanged := dst.entries.any fun e => e.nh == some nh && e.nhInv != nowInvalid
-  if !anyChanged then (nd, none)
+  if !(dst.entries.any fun e => e.nh == some nh && e.nhInv != nowInvalid) then (nd, none)
   else
     let entries := dst.entries.map fun e => if e.nh == some nh then { e with nhInv := nowInvalid } else e
     ((net, { dst with entries := entries }),
-     some { fam, net, destId := dst.id, best := oldBest != bestKey entries, any := true, replaced := none,
-            paths := entries.filter Entry.eligible })
+     some { fam, net, destId := dst.id, best := bestKey dst.entries != bestKey entries, any := true,
+            replaced := none, paths := entries.filter Entry.eligible })
 
 def Rib.nhv (fam : Fam) (nh : Nat) (reachable : Bool) (r : Rib) : Rib × List Change :=
   let l := r.dests.map (nhvDest fam nh reachable)
   ({ r with dests := l.map (·.1) }, if r.deferring then [] else l.filterMap (·.2))
 
 def Table.nhValidity (t : Table) (nh : Nat) (reachable : Bool) : Table × Res :=
-  let (r4, c4) := t.v4.nhv .v4 nh reachable
-  let (re, ce) := t.ev.nhv .ev nh reachable
-  ({ t with v4 := r4, ev := re }, .changes (c4 ++ ce))
+  let r4 := t.v4.nhv .v4 nh reachable
+  let re := t.ev.nhv .ev nh reachable
+  ({ t with v4 := r4.1, ev := re.1 }, .changes (r4.2 ++ re.2))
 
 /-! ## Deferral, dumps -/
 
@@ -676,15 +703,13 @@ def Table.step (p : Profile) (t : Table) : Op → Out (Table × Res)
   | .startDeferral fam => .ok (t.startDeferral fam, .unit)
   | .endDeferral fam => .ok (t.endDeferral fam)
 
-/-- The states and results of a run; `none` at the end = the step panicked. -/
+/-- The states and results of a run; the flag = a step panicked (the run stops there). -/
 def runFrom (p : Profile) : Table → List Op → List (Table × Res) × Bool
   | _, [] => ([], false)
   | t, op :: ops =>
       match t.step p op with
       | .panic => ([], true)
-      | .ok (t', r) =>
-          let (l, pn) := runFrom p t' ops
-          ((t', r) :: l, pn)
+      | .ok (t', r) => ((t', r) :: (runFrom p t' ops).1, (runFrom p t' ops).2)
 
 def run (p : Profile) (c : Case) : List (Table × Res) × Bool := runFrom p {} c.ops
 
